@@ -15,6 +15,9 @@
 import MW.Model.Ledger
 import MW.Lemmas.LedgerPendingOnly
 import MW.Lemmas.LedgerPendingRollback
+import MW.Lemmas.PendHistRun
+import MW.Lemmas.PendHistObs
+import MW.Lemmas.PendHistEx
 namespace MW.Props.C09
 open MW MW.Model.Ledger MW.Lemmas.LedgerPending
 
@@ -241,14 +244,161 @@ example : PendWF exRank exMined ∧ (∀ i ∈ exQ.ins, exRank i.tx < exRank "Q"
   · cases h
   · cases h
 
+-- ------------------------------------------------------------------ (5) THE PROPERTY: history-level refinement
+
+section history
+open MW.Lemmas.PendHist MW.Lemmas.Ledger MW.Spec.Pending
+
+/-- RECEIVE refines `onRecv` (new transaction, duplicate, already pending, unreadable, irrelevant, coinbase,
+    re-delivery of a seen transaction): `PendRel` = the pending records are exactly the transactions of the
+    specification's pending list and the spender index describes them. -/
+theorem recv_refines (rank : TxId → Nat) (e : Spec.Pending.Env) (ctx : Ctx) (s : Store) (v : Vol) (c : List Block) (P : List Tx)
+    (t : Tx) (hrel : PendRel rank s P) (hok : RecvOK rank e ctx s v c P t) :
+    PendRel rank (recvTx ctx s v t).1 (onRecv e ctx.node.chain c P t) :=
+  recv_step rank e ctx s v c P t hrel hok
+
+/-- CONNECT refines `onChainMoved c (c ++ [b])`: pending transactions of the block are confirmed, pending
+    transactions that share an input with ANY non-coinbase transaction of the block vanish with all their
+    pending descendants, nothing else changes.  `hnorec`, `hcover` are facts about the mined buckets; they
+    follow from C01's invariant (`connect_refines_inv`). -/
+theorem connect_refines (rank : TxId → Nat) (e : Spec.Pending.Env) (ctx : Ctx) (s s' : Store) (c : List Block) (b : Block)
+    (P : List Tx) (ready : List Wid) (conf : List TxId)
+    (h : filterBlock ctx s ready b = .ok (s', conf)) (hne : ready.isEmpty = false)
+    (hnorec : ∀ u ∈ b.txs, AMap.get s.txrecs (u.id, ⟨b.height, b.id⟩) = none)
+    (hcover : ∀ recs, filterTxs ctx s ready b.id b.txs [] 0 [] = .ok recs →
+      ∀ u ∈ b.txs, hasId P u.id = true → ∃ tr ∈ recs, tr.tx = u)
+    (hrel : PendRel rank s P) (hcons : Consistent c P) (hidx : IdxOK P) (hnocb : ∀ t ∈ P, t.cb = false)
+    (hok : ConnOK c b P) :
+    PendRel rank s' (onChainMoved e c (c ++ [b]) P) :=
+  connect_step rank e ctx s s' c b P ready conf h hne hnorec hcover hrel hcons hidx hnocb hok
+
+/-- DISCONNECT (rollback of the tip block) refines `onChainMoved (c ++ [b]) c`: the relevant non-coinbase
+    transactions of the block are pending again; the pending spenders of its coinbase outputs vanish with their
+    descendants (`DiscOK.cbown` = the foreign-coinbase restriction, known finding 4). -/
+theorem disconnect_refines (rank : TxId → Nat) (e : Spec.Pending.Env) (ctx : Ctx) (s s' : Store) (c : List Block) (b : Block)
+    (P : List Tx) (ids : List TxId)
+    (h : disconnectBlock ctx s b.height = .ok s') (hsync : s.syncedTo = b.height)
+    (hblk : AMap.get s.blocks b.height = some (b.id, ids))
+    (hrec : ∀ id ∈ ids, ∃ loc t, AMap.get s.txrecs (id, ⟨b.height, b.id⟩) = some loc ∧
+        ctx.node.txByFileLoc loc = some t ∧ t.id = id ∧ t ∈ b.txs)
+    (hidnd : ids.Nodup) (hrel : PendRel rank s P) (hcons : Consistent (c ++ [b]) P)
+    (hrk : ∀ t ∈ b.txs, ∀ i ∈ t.ins, rank i.tx < rank t.id) (hok : DiscOK e s c b P ids) :
+    PendRel rank s' (onChainMoved e (c ++ [b]) c P) :=
+  disconnect_step rank e ctx s s' c b P ids h hsync hblk hrec hidnd hrel hcons hrk hok
+
+/-- … the same two steps from C01's mined-side invariant `Inv` and hypotheses about chain, block and pending list
+    only; they also re-establish `Inv` and the spec-side invariants -/
+theorem connect_refines_inv (rank : TxId → Nat) (E : HEnv) (n : Node) (s s' : Store) (c rest : List Block) (b : Block)
+    (P : List Tx) (conf : List TxId)
+    (hI : Inv (E.ctx n) s c)
+    (hAR : AllReady E.own (readyWallets s E.wallets)) (hne : (readyWallets s E.wallets).isEmpty = false)
+    (hnode : n.chain = c ++ b :: rest) (hvalid : ChainValid E.own n.chain) (hheight : b.height = c.length)
+    (hrel : PendRel rank s P) (hcons : Consistent c P) (hsidx : SrcIdx E P)
+    (hnocb : ∀ t ∈ P, t.cb = false) (hrelv : ∀ t ∈ P, relevant E.env t = true)
+    (hsrcP : ∀ t ∈ P, E.src t.id = some t)
+    (hok : ConnOK c b P) (hsrcB : SrcChain E (c ++ [b]))
+    (h : filterBlock (E.ctx n) s (readyWallets s E.wallets) b = .ok (s', conf)) :
+    Inv (E.ctx n) s' (c ++ [b]) ∧ (∀ ws, readyWallets s' ws = readyWallets s ws) ∧
+    PendRel rank s' (onChainMoved E.env c (c ++ [b]) P) ∧
+    Consistent (c ++ [b]) (onChainMoved E.env c (c ++ [b]) P) ∧
+    (onChainMoved E.env c (c ++ [b]) P).Sublist P :=
+  connect_step_inv rank E n s s' c rest b P conf hI hAR hne hnode hvalid hheight hrel hcons hsidx hnocb hrelv hsrcP
+    hok hsrcB h
+
+theorem disconnect_refines_inv (rank : TxId → Nat) (E : HEnv) (n : Node) (s s' : Store) (c0 : List Block) (b : Block)
+    (P : List Tx)
+    (hI : Inv (E.ctx n) s (c0 ++ [b])) (hAR : AllReady E.own (readyWallets s E.wallets)) (hc0 : c0 ≠ [])
+    (hV : ChainValid E.own (c0 ++ [b])) (hH : HeightsOK (c0 ++ [b])) (hk : AMap.get n.known b.id = some b)
+    (hrel : PendRel rank s P) (hcons : Consistent (c0 ++ [b]) P) (hsidx : SrcIdx E P)
+    (hsrcP : ∀ t ∈ P, E.src t.id = some t) (dom : DiscDom rank E c0 b P)
+    (h : disconnectBlock (E.ctx n) s b.height = .ok s') :
+    Inv (E.ctx n) s' c0 ∧ (∀ ws, readyWallets s' ws = readyWallets s ws) ∧
+    PendRel rank s' (onChainMoved E.env (c0 ++ [b]) c0 P) ∧
+    Consistent c0 (onChainMoved E.env (c0 ++ [b]) c0 P) ∧
+    (∀ t ∈ onChainMoved E.env (c0 ++ [b]) c0 P, t ∈ P ∨ (t ∈ b.txs ∧ t.cb = false ∧ relevant E.env t = true)) :=
+  disconnect_step_inv rank E n s s' c0 b P hI hAR hc0 hV hH hk hrel hcons hsidx hsrcP dom h
+
+/-- PENDING REFINES (the property, for typed histories at block granularity).  `runH` runs the model functions the
+    driver executes (`recvTx`, `filterBlock`, `disconnectBlock`) and `Spec.Pending.step` side by side over a list of
+    events (node change, volatile change, receive, connect, disconnect — `stepH_spec`: the spec component IS the
+    fold of `Spec.Pending.step`).  From a world satisfying `HInv` (C01's `Inv` + `PendRel` + spec-side invariants;
+    e.g. a fresh wallet), for EVERY history whose events are inside the domain `HOK` (decidable statements about
+    chains, blocks, transactions and the pending list; see notes/C09.md), after the history:
+    the pending ids of the model are the pending ids of the specification, a coin is flagged spent-by-unconfirmed
+    exactly when a spec-pending transaction spends it, and the spender index lists exactly the spec-pending spenders. -/
+theorem pending_refines (rank : TxId → Nat) (E : HEnv) (w : HW) (evs : List HEv) (H : HInv rank E w)
+    (hD : ∀ x ∈ worldsH E w evs, HOK rank E x.1 x.2) :
+    HInv rank E (runH E w evs) ∧
+    (∀ id, (AMap.get (runH E w evs).s.pending id).isSome = (runH E w evs).sp.pend.any (fun t => t.id = id)) ∧
+    (∀ c i, spentByUnmined (runH E w evs).s c i = spentByPending (runH E w evs).sp.pend c i) ∧
+    (∀ op id, Listed (runH E w evs).s op id ↔ ∃ t ∈ (runH E w evs).sp.pend, t.id = id ∧ Spends t op) :=
+  have h := hinv_run evs w H hD
+  ⟨h, h.rel.ids_eq, h.rel.sbu, h.rel.listed⟩
+
+/-- a successful notification (`processBlock`) is a sequence of disconnect steps followed by connect steps, all
+    connects with the ready set read at the fork point (structural; no hypothesis) -/
+theorem notify_is_steps (c : Ctx) (s : Store) (v : Vol) (b : Block) (s' : Store) (v' : Vol)
+    (h : processBlock c s v b = (s', v', true)) :
+    ∃ sm, DReach c s sm ∧ CReach c (readyWallets sm c.wallets) sm s' :=
+  processBlock_trace_dc c s s' v v' b h
+
+/-- USER LEVEL (1): while a transaction is pending, every coin it spends is flagged spent-by-unconfirmed (the
+    flag coin selection and the balance listing read), along every history in the domain -/
+theorem pending_coins_excluded (rank : TxId → Nat) (E : HEnv) (w : HW) (evs : List HEv) (H : HInv rank E w)
+    (hD : ∀ x ∈ worldsH E w evs, HOK rank E x.1 x.2) :
+    ∀ t ∈ (runH E w evs).sp.pend, ∀ i ∈ t.ins, spentByUnmined (runH E w evs).s i.tx i.idx = true := by
+  intro t ht i hi
+  rw [(hinv_run evs w H hD).rel.sbu]
+  exact (spentByPending_iff _ _ _).2 ⟨t, ht, i, hi, rfl, rfl⟩
+
+/-- USER LEVEL (2), specification: when a conflicting transaction confirms, the purged transaction is gone and a
+    coin stays spent-by-pending only if a SURVIVING pending transaction spends it … -/
+theorem conflict_frees_coins_spec (c : List Block) (b : Block) (P : List Tx) (hnd : (P.map (·.id)).Nodup)
+    (t : Tx) (ht : t ∈ P) (hconf : conflictedBy (c ++ [b]) t = true) :
+    t ∉ settle (c ++ [b]) [] P ∧
+    ∀ tx idx, spentByPending (settle (c ++ [b]) [] P) tx idx = true →
+      ∃ t' ∈ P, t' ≠ t ∧ ¬ Lost (c ++ [b]) [] P t' ∧ ∃ i ∈ t'.ins, i.tx = tx ∧ i.idx = idx :=
+  conflict_frees_coins c b P hnd t ht hconf
+
+/-- … and the model agrees: after the connect step the flag of a coin is exactly "a surviving transaction spends it" -/
+theorem conflict_frees_coins_model (rank : TxId → Nat) (e : Spec.Pending.Env) (s' : Store) (c : List Block) (b : Block) (P : List Tx)
+    (h : PendRel rank s' (onChainMoved e c (c ++ [b]) P)) (tx : TxId) (idx : Nat) :
+    spentByUnmined s' tx idx = spentByPending (settle (c ++ [b]) [] P) tx idx := by
+  rw [h.sbu, onChainMoved_connect]
+
+/-- non-vacuity: a fresh wallet satisfies `HInv`; a concrete history (connect a block, receive a transaction that
+    pays the wallet, receive a child, connect a block that confirms the first) is inside the domain -/
+example : HInv exRankH exE exW0 := exHInv0
+example : ∀ x ∈ worldsH exE exW0 exEvs, HOK exRankH exE x.1 x.2 := exDomain
+example : ((runH exE exW0 exEvs).s.pending.map (·.1), (runH exE exW0 exEvs).sp.pend.map (·.id)) = (["T2"], ["T2"]) := by
+  decide
+
+end history
+
 -- ------------------------------------------------------------------ what is NOT proved here
 
-/-- FULL statement of the history-level property (NOT proved; tied by the three-way correspondence on generated
-    histories): for every history of driver operations inside the compared domain `Domain` (valid chains, deliveries
-    a node would relay — see notes/C09.md), the ids of the model's pending set are the ids of the specification's
-    pending set `MW.Spec.Pending`.  What is proved above are the per-operation facts on the pending side and the
-    invariant `PendWF`; the missing part is the simulation argument over histories, which also needs the mined-side
-    invariant of C01 (which block transactions filterTx finds relevant is decided from the credit table). -/
+/-- STILL OPEN (1): the driver's `notify` applies ONE `onChainMoved` from the old to the new chain, the model (and
+    `pending_refines`) move block by block.  The statement that the one-shot settle equals the composition of the
+    single-block moves (for the disconnect-then-connect sequences `notify_is_steps` produces) is not proved; it is
+    FALSE for a stale notification while a pending transaction conflicts with the wallet's lagging chain (see
+    notes/C09.md, Round 4). -/
+def C09_full_notify_refinement (Domain : Spec.Pending.Env → List Block → List Block → List Tx → Prop) : Prop :=
+  ∀ e c0 (old new : List Block) P, Domain e (c0 ++ old) (c0 ++ new) P →
+    Spec.Pending.onChainMoved e (c0 ++ old) (c0 ++ new) P =
+      ((List.range new.length).foldl (fun (cp : List Block × List Tx) k =>
+          (c0 ++ new.take (k + 1), Spec.Pending.onChainMoved e cp.1 (c0 ++ new.take (k + 1)) cp.2))
+        ((List.range old.length).foldl (fun (cp : List Block × List Tx) k =>
+            (c0 ++ old.take (old.length - k - 1),
+             Spec.Pending.onChainMoved e cp.1 (c0 ++ old.take (old.length - k - 1)) cp.2))
+          (c0 ++ old, P))).2
+
+/-- STILL OPEN (2): the pending-credit and unmined-deposit buckets are not part of `PendRel` (tied by the raw dumps
+    `pcred`, `pgame`); the full relation would add: -/
+def C09_full_credit_relation (e : Spec.Pending.Env) (s : Store) (P : List Tx) : Prop :=
+  ∀ id j amt, (∃ cr, AMap.get s.pendCred (id, j) = some cr ∧ cr.amt = amt) ↔
+    (id, j, amt) ∈ Spec.Pending.pendingCredits e P
+
+/-- the former schematic statement over driver strings (kept for reference; `pending_refines` is its typed form) -/
 def C09_full_history_refinement (Domain : List (List String) → Prop)
     (run : List (List String) → Store × List Tx) : Prop :=
   ∀ ops, Domain ops → ∀ id, (AMap.get (run ops).1.pending id).isSome = (run ops).2.any (fun t => t.id = id)
